@@ -195,6 +195,15 @@ def enum_order(ctx):
             continue
         for s in sites:
             chain.check_reader(ctx, r, s, XSD + ':' + fn_name)
+        # the declaration is returned whatever the number of enumerators / members: every return hands back the element that was created
+        made = [a.targets[0].id for a in ast.walk(fn) if isinstance(a, ast.Assign) and len(a.targets) == 1 and isinstance(a.targets[0], ast.Name) and
+                isinstance(a.value, ast.Call) and dotted(a.value.func) == 'ET.Element']
+        rets = [n for n in ast.walk(fn) if isinstance(n, ast.Return)]
+        bad = [n for n in rets if not (isinstance(n.value, ast.Name) and n.value.id in made)]
+        r.check(bool(rets) and not bad, '%s returns the declared type on every path' % fn_name, bad[0] if bad else fn, construct=XSD + ':' + fn_name,
+                key='always-declared', msg='%s has a path that returns `%s` instead of the element it declares: an enumeration without enumerators (a '
+                                           'structure without members) gets no type, and attributes typed by it refer to an undeclared type' % (
+                                               fn_name, src(bad[0].value) if bad and bad[0].value is not None else 'nothing'))
     fn = repo.func(XSD + ':build_enum_type')
     ok = any(isinstance(n, ast.While) and pm.contains("ET.SubElement(enum_list, 'xs:enumeration', value=s_enum.name)", n) for n in ast.walk(fn))
     r.check(ok, 'one xs:enumeration per enumerator, valued by its name', fn, construct=XSD + ':build_enum_type', key='emit',
